@@ -19,6 +19,7 @@ def run(chk, facts, tier):
              'like handle_write_request / handle_execute_write_request build their write arguments', floor=3)
     chk.rule('prepare-defers', 'Prepare Write: the only attribute access is the zero-length probe; the payload is copied into the queue element returned by allocate_from_write_queue (null -> Prepare Queue Full)', floor=1)
     chk.rule('execute-frees-on-every-exit', 'handle_execute_write_request: every exit behind the PDU check releases the queue (write_queue_guard in scope or free_write_queue on the path)', floor=1)
+    chk.rule('release-only-after-pdu-check', 'handle_execute_write_request: the write_queue_guard and every free_write_queue are control dependent on the passed PDU check (in_size == 2, flag 0 or 1): the queue is released on execute, cancel or disconnect only', floor=1)
     chk.rule('single-owner', 'allocate_from_write_queue refuses when another client owns the queue; first_write_queue_element yields only to the owner; free_write_queue only for the owner', floor=3)
     chk.rule('release-on-disconnect', 'server::client_disconnected frees the queue and the link layer calls it on every disconnect (force_disconnect)', floor=2)
 
@@ -88,6 +89,14 @@ def run(chk, facts, tier):
         ok = not bad and order_ok and flag_ok
         chk.instance('execute-frees-on-every-exit', fn, 'queue released on %d exits; elements applied first..next under execute_flag' % (len(fn.returns()) + 1), ok,
                      '' if ok else ('exit at line %d leaves the queue allocated' % bad[0].l if bad else 'queue elements are not applied in order / not under the execute flag'), key='execute')
+    # ... and only then: a PDU that is neither an execute nor a cancel leaves the queue with its owner
+    for fn in [f for f in variants(facts, SV + 'handle_execute_write_request', chk) if f.body.calls('first_write_queue_element')]:
+        guard = fn.body.find(lambda n: n.k == 'VarDecl' and n.d.get('tn') == 'write_queue_guard')
+        sites = guard + fn.body.calls('free_write_queue')
+        bad = [x for x in sites if not has_atom(guard_atoms(fn, x), lambda n: is_name(n, fn.params[1]['n']), {'=='}, lambda o: cval(o) == 2)]
+        chk.instance('release-only-after-pdu-check', fn, '%d release site(s) behind in_size == 2 and a valid flag' % len(sites), bool(sites) and not bad,
+                     '' if sites and not bad else 'the queue is released at line %d before the request is known to be an Execute Write with flag 0 or 1: a malformed PDU (answered with Invalid PDU) discards the prepared writes and hands the queue to another client' % (bad[0].l if bad else 0),
+                     node=bad[0] if bad else None, key='execute')
     for fn in variants(facts, WQ + 'allocate_from_write_queue', chk):
         rets = [r for r in fn.returns() if ret_value(r) is not None and (cval(ret_value(r)) == 0 or ret_value(r).k == 'CXXNullPtrLiteralExpr')]
         conds = [i.child('cond') for r in rets for i, br in enclosing_ifs(r) if br == 'then']
